@@ -197,7 +197,7 @@ def switches2_nocache(c0: int, e0: int, c1: int, e1: int, l1: int, a0: int, b0: 
     return _run(True, [(c0, e0, 0, a0, b0), (c1, e1, l1, a1, b0)], order)
 
 
-@harness("C16", lemma="switches-3", cubes={"nc": [False, True], "c0": [0, 1, 2, 3], "c1": [0, 1, 2, 3], "c2": [0, 1, 2, 3], "e2": [0, 1, 2]},
+@harness("C16", lemma="switches-3", cubes={"nc": [False], "c0": [0, 1, 2, 3], "c1": [0, 1, 2, 3], "c2": [0, 1, 2, 3], "e2": [0, 1, 2]},
          stubs=("S1",), pre=["0 <= e0 <= 2", "0 <= e1 <= 2", "0 <= l0 <= 2", "0 <= l1 <= 2", "0 <= l2 <= 2"], tier="thorough",
          example=dict(nc=False, c0=0, e0=0, l0=0, c1=3, e1=2, l1=2, c2=0, e2=0, l2=0, a0=1, b0=2, a1=1, b1=2, a2=1, b2=2, order=False),
          timeout=900, bounds="history of 3 evaluations, full cross product of switch settings per evaluation", what="as switches-2")
